@@ -13,6 +13,32 @@ NUMTYPES = [
   ('SLG', 32, 8, 0x80000000, 0x80000001, 0x7fffffff, 1), ('S4L', 32, 0x48, 0, 0x80000000, 0x7fffffff, 1),
   ('UIN10', 16, 0, 0xffff, 0, 0xfffe, 10), ('SIN-10', 16, 8, 0x8000, 0x8001, 0x7fff, -10), ('ULG100', 32, 0, 0xffffffff, 0, 0xfffffffe, 100),
 ]
+# extra types for the raw-level kernels: (id, bits, flags, repl, min, max, div, firstBit)
+RAWTYPES = [(t + (-1,)) for t in NUMTYPES if 'x' not in t[0]] + [
+  ('UIR', 16, 4, 0xffff, 0, 0xfffe, 1, -1), ('SIR', 16, 12, 0x8000, 0x8001, 0x7fff, 1, -1), ('FLR', 16, 12, 0x8000, 0x8001, 0x7fff, 1000, -1),
+  ('U3R', 24, 4, 0xffffff, 0, 0xfffffe, 1, -1), ('ULR', 32, 4, 0xffffffff, 0, 0xfffffffe, 1, -1), ('S4B', 32, 0x4c, 0, 0x80000000, 0x7fffffff, 1, -1),
+  ('BCD', 8, 2, 0xff, 0, 99, 1, -1), ('BCD2', 16, 2, 0xffff, 0, 9999, 1, -1), ('BCD3', 24, 2, 0xffffff, 0, 999999, 1, -1), ('BCD4', 32, 2, 0xffffffff, 0, 99999999, 1, -1),
+  ('HCD1', 8, 0xc2, 0, 0, 99, 1, -1), ('HCD2', 16, 0xc2, 0, 0, 9999, 1, -1), ('HCD4', 32, 0xc2, 0, 0, 99999999, 1, -1),
+  ('PIN', 16, 0x22, 0xffff, 0, 9999, 1, -1),
+  ('BI0_1', 1, 0x41, 0, 0, 0, 1, 0), ('BI0_7', 7, 0x41, 0, 0, 0, 1, 0), ('BI3_2', 2, 0x41, 0, 0, 0, 1, 3), ('BI3_5', 5, 0x41, 0, 0, 0, 1, 3), ('BI7', 1, 0x40, 0, 0, 0, 1, 7),
+  ('BDY', 8, 0x200, 0x07, 0, 6, 1, -1), ('HDY', 8, 0x200, 0x00, 1, 7, 1, -1),
+]
+QUICK_RAW = ['UCH', 'SCH', 'D1C', 'UIN', 'SIR', 'FLT', 'D2C', 'S3N', 'ULG', 'SLG', 'BCD', 'BCD2', 'HCD2', 'BI3_2', 'BI0_7', 'BI7', 'BDY']
+
+def rawtype_jobs(prop, T, names=None, **kw):
+    out = []
+    for (tid, bits, fl, repl, mn, mx, div, fb) in RAWTYPES:
+        if not T and tid not in (names or QUICK_RAW):
+            continue
+        d = {'T_BITS': bits, 'T_FLAGS': fl, 'T_REPL': '%du' % repl, 'T_MIN': '%du' % mn, 'T_MAX': '%du' % mx, 'T_DIV': '(%d)' % div}
+        if fb >= 0:
+            d['T_FIRSTBIT'] = fb
+        out.append(Job(prop, 'raw_' + tid.replace('-', 'm'), 'C05_raw.cpp', defs=d, unwind=8, shape='K',
+                       link=['lib/ebus/datatype.cpp', 'lib/ebus/symbol.cpp', 'lib/ebus/result.cpp', 'lib/ebus/contrib/contrib.cpp', 'lib/ebus/contrib/tem.cpp'],
+                       models=['string', 'libc', 'sstream', 'posix', 'containers', 'libm'], skip_ctors=['datatype', 'contrib', 'tem'],
+                       bounds='type %s (%d bits, divisor %d%s): every byte pattern of the field and its neighbours, every field offset 0..2' % (tid, bits, div, ', first bit %d' % fb if fb >= 0 else ''), **kw))
+    return out
+
 QUICK_NUM = ['UCH', 'SCH', 'D1C', 'UIN', 'SIN', 'FLT', 'S3N', 'ULG', 'SLG', 'U4L', 'SIN-10']
 
 def numtype_jobs(prop, src, T, extra_defs, prefix, names=None, **kw):
@@ -71,6 +97,11 @@ def jobs(prop, tier):
             J.append(Job('C18', 'http%d' % l, 'C18_request.cpp', defs={'H_HTTP': None, 'L': l}, unwind=l + 18, shape='K', models=M,
                          solver='cadical', timeout=1500 if T else 250,
                          bounds='all URIs of exactly %d characters over {%%,2,5,4,1,e,/,.,a} with well-formed escapes' % l))
+    if prop in ('C05', 'C06', 'C10'):
+        names = None
+        if prop == 'C10':
+            names = ['BI0_1', 'BI0_7', 'BI3_2', 'BI3_5', 'BI7', 'UCH', 'SIR', 'BCD2'] if not T else [t[0] for t in RAWTYPES]
+        J += rawtype_jobs(prop, T or prop == 'C10', names=names, solver='cadical', timeout=1200 if T else 280)
     if prop == 'C07':
         J += numtype_jobs('C07', 'C07_parse.cpp', T, {}, 'parse_', solver='cadical', timeout=900 if T else 250)
     if prop == 'C12':
@@ -83,6 +114,24 @@ BUS_NOTE = ('Trusted: clang-14 lowering, ll2c, models (string, sstream, posix, c
             '(every read result = timeout | error | chunk of 1..2 arbitrary bytes), clock = arbitrary non-decreasing instants, logging off. '
             'DirectProtocolHandler::run() itself (thread start, 5 s reopen wait) is not encoded; its loop body is re-stated in env_bus.h Stepper.')
 META = {
+ 'C05': dict(
+   level_text='Bounded model checking of the real numeric decode kernels: for every byte pattern of every checked built-in type (all 1..4 byte integer, fixed-point, BCD/HCD, weekday and bit types incl. big-endian variants) the raw decode equals an independent reference (endianness, digit validity, bit range), the replacement pattern decodes to null, out-of-range raws are rejected, and the numeric value equals sign/divisor semantics of the type definition.',
+   level_note='Raw-level kernels only: readRawValue / getFloatFromRawValue / writeRawValue of the real NumberDataType per built-in numeric, BCD/HCD, weekday and bit type. Trusted: clang-14 lowering, ll2c, CBMC float encoding. Outside: text rendering and parsing through iostreams (readSymbols/writeSymbols text), date/time/string types, EXP/KNX floats, value lists, DataFieldSet layout across several fields.',
+   outside_claim='text output/input formats, date/time/string/hex types, EXP/KNX float types, value lists, multi-field layout, float exactness for |raw| >= 2^24',
+   assumptions=COMMON_ASSUME,
+ ),
+ 'C06': dict(
+   level_text='Bounded model checking of encode-inverts-decode at the raw level: for every decodable byte pattern of every checked type, writeRawValue(readRawValue(bytes)) reproduces the bits the field owns (canonical replacement for null) and succeeds.',
+   level_note='Raw-level kernels only: readRawValue / getFloatFromRawValue / writeRawValue of the real NumberDataType per built-in numeric, BCD/HCD, weekday and bit type. Trusted: clang-14 lowering, ll2c, CBMC float encoding. Outside: text rendering and parsing through iostreams (readSymbols/writeSymbols text), date/time/string types, EXP/KNX floats, value lists, DataFieldSet layout across several fields.',
+   outside_claim='text output/input formats, date/time/string/hex types, EXP/KNX float types, value lists, multi-field layout, float exactness for |raw| >= 2^24',
+   assumptions=COMMON_ASSUME,
+ ),
+ 'C10': dict(
+   level_text='Bounded model checking of bit/byte ownership at the field-type level: for every type (incl. bit types BI0..BI7 with lengths) and every field offset, encoding changes only the bits the field owns in an arbitrary pre-filled buffer and decoding ignores all other bits (the decoded raw is a function of the owned bits only).',
+   level_note='Raw-level kernels only: readRawValue / getFloatFromRawValue / writeRawValue of the real NumberDataType per built-in numeric, BCD/HCD, weekday and bit type. Trusted: clang-14 lowering, ll2c, CBMC float encoding. Outside: text rendering and parsing through iostreams (readSymbols/writeSymbols text), date/time/string types, EXP/KNX floats, value lists, DataFieldSet layout across several fields.',
+   outside_claim='text output/input formats, date/time/string/hex types, EXP/KNX float types, value lists, multi-field layout, float exactness for |raw| >= 2^24',
+   assumptions=COMMON_ASSUME,
+ ),
  'C07': dict(
    level_text='Bounded model checking of the real NumberDataType::parseInput + checkValueRange per built-in numeric type: the libc parse result is a free 64-bit / double variable constrained only by the strtol/strtoul/strtod contract, so every text outcome (sign, any magnitude, overflow, trailing garbage, NaN/inf) is covered; success implies well-formed text, value in the representable and configured range, and a raw value that decodes to the request within one resolution step.',
    level_note='Trusted: clang-14 lowering, ll2c, the libc contract stubs in C07_parse.cpp (symbolic) vs real glibc on the generated text (native replay), models/libm.c (exp2/round), CBMC float encoding. The registry constructor is not executed (types are constructed from the transcribed table). Outside: value lists (ValueListDataField), BCD/HCD digit types, date/time types, EXP float type, derived min/max/step via derive().',
